@@ -35,7 +35,7 @@ ALL_FEATURES = {
     "array_pop", "early_return", "shadowing", "match_return", "else_if", "assert_stmt", "array_pass", "struct_pass",
     "string_escapes", "effectful_logic", "continue_in_for", "print_enum", "min_max", "array_slice",
     "array_struct", "float_arith", "deep_expr", "array_alias", "str_substring", "char_at", "global_shadow",
-    "unused_results", "long_strings", "self_compare", "tuple_pass", "effectful_args", "shadow_type_change", "out_of_scope_reference", "array_float", "struct_array_field", "tuple_nested", "fn_returning_composite",
+    "unused_results", "long_strings", "self_compare", "tuple_pass", "effectful_args", "shadow_type_change", "out_of_scope_reference", "array_float", "struct_array_field", "tuple_nested", "fn_returning_composite", "print_float",
 }
 
 
@@ -43,8 +43,11 @@ def t_array(t):
     return ("array", t)
 
 
+PRINTABLE_FLOAT = [False]     # set per draw by programs(): feature "print_float"
+
+
 def printable(t):
-    return t in ("int", "bool", "string")
+    return t in ("int", "bool", "string") or (t == "float" and PRINTABLE_FLOAT[0])
 
 
 def type_str(t):
@@ -1247,5 +1250,6 @@ def gen_program(g):
 @st.composite
 def programs(draw, features=None, size=3):
     F = set(ALL_FEATURES if features is None else features)
+    PRINTABLE_FLOAT[0] = "print_float" in F and "floats" in F
     g = Gen(draw, F, size)
     return gen_program(g)
